@@ -403,7 +403,7 @@ def merge_results(fam, parts):
 
 
 def cached_pipeline(fam, progs, tier, cap, do_mc, sample=None, pb=None, clock=False):
-    chunk = CHUNK if tier == "quick" else CHUNK // 2
+    chunk = CHUNK if tier == "quick" else CHUNK // 4
     if len(progs) > chunk:
         parts = []
         skipped = 0
@@ -1112,7 +1112,7 @@ def run_property(pid, tier):
     spec = SHUTTLE_PROPS[pid]
     known = vlib.load_known()
     DEADLINE[0] = None if tier == "quick" else time.time() + float(os.environ.get("VERIF_THOROUGH_BUDGET_S", "1500"))
-    cap = 4000 if tier == "quick" else 20000
+    cap = 4000 if tier == "quick" else 8000
     totals = {}
     problems = []
     samples = []
@@ -1124,9 +1124,9 @@ def run_property(pid, tier):
             return None
         smp = st["sample"][0 if tier == "quick" else 1] if st.get("sample") else None
         pbv = st.get("pb_quick", st.get("pb")) if tier == "quick" else st.get("pb")
-        pcap = cap if pbv is None else (25000 if tier == "quick" else 60000)
+        pcap = cap if pbv is None else (25000 if tier == "quick" else 40000)
         if st.get("clock"):
-            pcap = 1500 if tier == "quick" else 8000
+            pcap = 1500 if tier == "quick" else 4000
         return progs, cached_pipeline(st["fam"], progs, tier, pcap, st["mc"], sample=smp, pb=pbv, clock=bool(st.get("clock")))
 
     # stages are independent (own output directory each): run a few side by side, report in table order
